@@ -84,6 +84,15 @@ package binary
 // dynamically (checked on its SSA).
 //@ callback-parametric func writeChangeSwitchCase
 
+// C15: the only place where the schema found in a stream header is compared with the current and the previous
+// schemas - and a stream of an unknown schema refused - is VersionFromSchema. Both constructors of every generated
+// binary reader initialise version_ from it, for every protocol, whether or not the protocol changed in some version.
+//@ func writeHeaderFile@emits:"%s(std::istream& stream, bool skip_completed_check=false)\n"
+//@   property C15
+//@   ensures stream_reader_looks_its_schema_up: emittedHere(": %s(skip_completed_check), yardl::binary::BinaryReader(stream), version_(%s::VersionFromSchema(schema_read_)) {") == 1
+//@   ensures file_reader_looks_its_schema_up: emittedHere(": %s(skip_completed_check), yardl::binary::BinaryReader(file_name), version_(%s::VersionFromSchema(schema_read_)) {") == 1
+//@   ensures the_reader_base_is_the_protocol_s_own: emittedArg(": %s(skip_completed_check), yardl::binary::BinaryReader(stream), version_(%s::VersionFromSchema(schema_read_)) {", 0, 1) == common.QualifiedAbstractReaderName(protocol) && emittedArg(": %s(skip_completed_check), yardl::binary::BinaryReader(file_name), version_(%s::VersionFromSchema(schema_read_)) {", 0, 1) == common.QualifiedAbstractReaderName(protocol)
+
 // C05: when the element type of a vector (or of a stream batch) changed, the generated reader converts element by
 // element. Every element is converted into a temporary of its own, declared and value-initialised inside the body
 // of the generated loop: a conditional element conversion (an optional that is empty, a union case that is skipped)
